@@ -97,7 +97,7 @@ def _samples(rng, ct, depth, cls, ncolors):
     raise ValueError(cls)
 
 
-CLASSES = ["random", "hilo", "gray", "opaque", "binalpha", "binalpha_gray", "bitrep", "fewcolors"]
+CLASSES = ["random", "hilo", "gray", "opaque", "binalpha", "binalpha_gray", "bitrep", "fewcolors", "banded_key"]
 
 
 def gen(rng, ct, depth, w, h, il, cls, key_mode="none", ncolors=None):
@@ -133,13 +133,57 @@ def gen(rng, ct, depth, w, h, il, cls, key_mode="none", ncolors=None):
                     pixels[y][x] = (cur,)
         data = pg.pack_image(pixels, w, h, ct, depth, il)
         return pg.img_token(w, h, ct, depth, il, base, data), {"cls": cls, "pal": psize}
-    f = _samples(rng, ct, depth, cls, ncolors)
-    pixels = [[f() for _ in range(w)] for _ in range(h)]
-    if cls == "hilo" and depth == 16 and rng.random() < 0.15:
-        # one sample spoils the lossless 16->8 reduction
+    if cls == "banded_key" and depth >= 8:
+        # position-dependent content: the first band holds opaque gray pixels of exactly the shades a colour key would
+        # first be chosen from, the rest holds transparent pixels and opaque pixels that avoid those shades
+        # (whatever a scan learns before its first transparent pixel differs from what it learns after)
+        cand = [0x00, 0xFF, 0x55, 0xAA, 1, 2]
+        rep = (lambda v: v * 257) if depth == 16 else (lambda v: v)
+        nch = pg.CHANNELS[ct]
+        band = max(1, h // 3)
+        flip = rng.random() < 0.3                      # sometimes the other way round
+        period = rng.choice([1, 2, 4, 6])
+        pixels = []
+        for y in range(h):
+            row = []
+            for x in range(w):
+                top = ((y < band) if h > 1 else (x < max(1, w // 3))) != flip
+                if ct in (4, 6):
+                    if top:
+                        v = rep(cand[(x + y) % period])
+                        row.append((v, mx) if ct == 4 else (v, v, v, mx))
+                    else:
+                        v = rep(rng.randrange(8, 250))
+                        a = rng.choice([0, mx, mx])
+                        if ct == 4:
+                            row.append((v, a))
+                        else:
+                            row.append((v, v, v, a) if rng.random() < 0.6 else (rep(rng.randrange(256)), v, v, a))
+                else:
+                    v = rep(cand[(x + y) % period]) if top else rep(rng.randrange(8, 250))
+                    row.append(tuple([v] * nch))
+            pixels.append(row)
+    else:
+        if cls == "banded_key":
+            cls = "random"
+        f = _samples(rng, ct, depth, cls, ncolors)
+        pixels = [[f() for _ in range(w)] for _ in range(h)]
+        if cls == "hilo" and depth == 16 and rng.random() < 0.15:
+            # one sample spoils the lossless 16->8 reduction
+            y, x = rng.randrange(h), rng.randrange(w)
+            px = list(pixels[y][x])
+            px[rng.randrange(len(px))] = 0x1234
+            pixels[y][x] = tuple(px)
+    if rng.random() < 0.22 and depth >= 8:
+        # near miss: ONE sample of ONE pixel is off by the least significant byte / by one, so that an exactness test that
+        # looks at only part of a sample (or at only some pixels) accepts an image it must not reduce
         y, x = rng.randrange(h), rng.randrange(w)
         px = list(pixels[y][x])
-        px[rng.randrange(len(px))] = 0x1234
+        c = rng.randrange(len(px))
+        if depth == 16:
+            px[c] = (px[c] & 0xff00) | ((px[c] + rng.choice([1, 0x55, 0x80])) & 0xff)
+        else:
+            px[c] = (px[c] + rng.choice([1, 255])) & 0xff
         pixels[y][x] = tuple(px)
     extra = None
     if ct in (0, 2) and key_mode != "none":
